@@ -106,6 +106,14 @@ def main():
         vol = construct.construct_volume('w', s0, s1, degree=1)
         grid, filled = voxelize.voxelize(vol, grid_size=(4, 4, 4), num_procs=nproc, tol=0.26)
         out['filled'] = list(filled); out['n'] = len(grid)
+        # the user's padding must reach the workers: several paddings and the default one (a padding that is dropped or replaced
+        # by the default in the multi-process path shows as soon as one of them changes the filled set)
+        out['by_tol'] = {}
+        for tl in (0.11, 0.6, 1.7):
+            _, fl = voxelize.voxelize(vol, grid_size=(4, 4, 4), num_procs=nproc, tol=tl)
+            out['by_tol'][str(tl)] = list(fl)
+        _, fl0 = voxelize.voxelize(vol, grid_size=(4, 4, 4), num_procs=nproc)
+        out['default_tol'] = list(fl0)
         # a grid whose number of voxels (45) is not divisible by 2, 4 or 8
         grid2, filled2 = voxelize.voxelize(vol, grid_size=(5, 3, 3), num_procs=nproc, tol=0.26)
         out['filled2'] = list(filled2); out['n2'] = len(grid2)
